@@ -120,8 +120,21 @@ def replay_ops(cex):
         bad["scalar - converter"] = True
     if not np.allclose((10 / c)(a, 2.0), 10 / (a * 2)):
         bad["scalar / converter"] = True
+    b = a[::-1].copy() * 1.5
+    q = ImageProvider(lambda scale: b * scale)
+    c2 = ImageConverter(lambda img, scale: (img + 1) * scale)
+    ops = {"+": operator.add, "-": operator.sub, "*": operator.mul, "/": operator.truediv, "==": operator.eq, "!=": operator.ne, "<": operator.lt, "<=": operator.le, ">": operator.gt, ">=": operator.ge}
+    for nm, op in ops.items():
+        for form, build, want in (("provider", lambda: op(p, q)(2.0), op(a * 2, b * 2)), ("converter", lambda: op(c, c2)(a, 2.0), op(a * 2, (a + 1) * 2)),
+                                  ("converter-op-provider", lambda: op(c, q)(a, 2.0), op(a * 2, b * 2)), ("provider-scalar", lambda: op(p, 6.0)(2.0), op(a * 2, 6.0))):
+            try:
+                got = build()
+                if not np.allclose(np.asarray(got, dtype=np.float64), np.asarray(want, dtype=np.float64)):
+                    bad[f"{form} {nm}"] = "wrong values"
+            except Exception as e:
+                bad[f"{form} {nm}"] = repr(e)[:120]
     for n in (5, 6):
-        g = from_gaussian(shape=(n * 0.5,) * 3, sigma=0.8, shift=(0.25, 0.0, -0.5))(0.5)
+        g = from_gaussian(shape=(n * 0.5 + 0.15, n * 0.5 - 0.15, n * 0.5), sigma=0.8, shift=(0.25, 0.0, -0.5))(0.5)
         zz, yy, xx = np.indices((n,) * 3)
         ctr = (n - 1) / 2
         ref = np.exp(-0.5 * (((zz - ctr - 0.5) / 1.6) ** 2 + ((yy - ctr) / 1.6) ** 2 + ((xx - ctr + 1.0) / 1.6) ** 2))
@@ -155,16 +168,23 @@ def sec_operators(rec, patches=None):
             ev = ev_p if kind == "provider" else ev_c
             out = {}
             base_a, base_b = ev(A_), ev(B_)
+
+            def tryev(build):
+                try:
+                    return ev(build())
+                except Exception as e:  # a program result: reported per operator
+                    return e
+
             for nm, op in {**arith, **cmps}.items():
-                out[("obj", nm)] = (ev(op(A_, B_)), base_a, base_b)
-                out[("scalar-right", nm)] = (ev(op(A_, s)), base_a, s)
+                out[("obj", nm)] = (tryev(lambda: op(A_, B_)), base_a, base_b)
+                out[("scalar-right", nm)] = (tryev(lambda: op(A_, s)), base_a, s)
             for nm, op in arith.items():
-                out[("scalar-left", nm)] = (ev(op(s, A_)), s, base_a)
-            out[("neg", "-")] = (ev(-A_), base_a, None)
+                out[("scalar-left", nm)] = (tryev(lambda: op(s, A_)), s, base_a)
+            out[("neg", "-")] = (tryev(lambda: -A_), base_a, None)
             if kind == "converter":
                 pb_img = _obj(pb(scale))
                 for nm, op in {**arith, **cmps}.items():
-                    out[("converter-op-provider", nm)] = (ev(op(ca, pb)), base_a, pb_img)
+                    out[("converter-op-provider", nm)] = (tryev(lambda: op(ca, pb)), base_a, pb_img)
             return out
 
         for pth in explore(run, assumptions=hyps, max_paths=20):
@@ -174,6 +194,9 @@ def sec_operators(rec, patches=None):
             h = hyps + [pth.condition()]
             for (form, nm), (got, l, r) in pth.result.items():
                 op = {**arith, **cmps}.get(nm)
+                if isinstance(got, Exception):
+                    rec.fact(f"operators[{kind}]/{form} {nm}/evaluates", False, key=f"C19/operators/{form}[{nm}]-raises", detail={"exc": repr(got)[:200], **replay_ops({})[1]}, reproduced=replay_ops({})[0])
+                    continue
                 for idx in np.ndindex(SHAPE):
                     lv = l[idx] if isinstance(l, np.ndarray) else l
                     if form == "neg":
@@ -411,11 +434,12 @@ def sec_gaussian(rec, patches=None):
     scale = real("scale")
     sg = [real(f"sg{a}") for a in range(3)]
     sh = [real(f"shift{a}") for a in range(3)]
-    hyps = [scale.e > 0] + [s.e > 0 for s in sg]
+    dl = [real(f"dl{a}") for a in range(3)]
+    hyps = [scale.e > 0] + [s.e > 0 for s in sg] + [z3.And(d.e >= Fraction(-2, 5), d.e <= Fraction(2, 5)) for d in dl]
     for n in ((2, 3, 2), (3, 2, 4)):
-        # shape in nm chosen so that shape/scale rounds to n: shape_nm = n * scale exactly
+        # shape in nm = (n + dl) * scale with |dl| <= 0.4: shape/scale rounds to n, and is in general not an integer
         def run():
-            return I.from_gaussian(shape=tuple(k * scale for k in n), sigma=tuple(sg), shift=tuple(sh))(scale)
+            return I.from_gaussian(shape=tuple((k + d) * scale for k, d in zip(n, dl)), sigma=tuple(sg), shift=tuple(sh))(scale)
 
         for pi, pth in enumerate(explore(run, assumptions=hyps, max_paths=30)):
             tag = f"from_gaussian[n={n}]/path{pi}"
@@ -439,7 +463,7 @@ def sec_gaussian(rec, patches=None):
                 for a in range(3):
                     c = Fraction(n[a] - 1, 2) + sh[a].e / scale.e
                     want = want + ((idx[a] - c) / (sg[a].e / scale.e)) * ((idx[a] - c) / (sg[a].e / scale.e))
-                rec.query(f"{tag}/voxel{idx}-exponent", h, arg == -want / 2, key="C19/from_gaussian/centre-and-exponent", names={"scale"} | {f"sg{a}" for a in range(3)} | {f"shift{a}" for a in range(3)},
+                rec.query(f"{tag}/voxel{idx}-exponent", h, arg == -want / 2, key="C19/from_gaussian/centre-and-exponent", names={"scale"} | {f"sg{a}" for a in range(3)} | {f"shift{a}" for a in range(3)} | {f"dl{a}" for a in range(3)},
                           replay=replay_ops, nonlinear=True, twin=False)
 
 
@@ -486,6 +510,9 @@ MUTANTS = [
     ("rsub-is-sub (defect fixed by 'fix: reflected subtraction...')", "checks.c19", "sec_operators", {}, {_CL: [("        return -self + other\n", "        return self - other\n")]}),
     ("provider-rtruediv-is-truediv", "checks.c19", "sec_operators", {}, {_CL: [("lambda scale: other / self(scale)", "lambda scale: self(scale) / other")]}),
     ("converter-rtruediv-is-truediv", "checks.c19", "sec_operators", {}, {_CL: [("lambda x, scale: other / self(x, scale)", "lambda x, scale: self(x, scale) / other")]}),
+    ("comparison-ufunc-with-float32-dtype (defect fixed by 'fix: ordering comparisons...')", "checks.c19", "sec_operators", {}, {_CL: [("    return np.less(a, b).astype(np.float32)\n", "    return np.less(a, b, dtype=np.float32)\n")]}),
+    ("ge-is-gt", "checks.c19", "sec_operators", {}, {_CL: [("    return np.greater_equal(a, b).astype(np.float32)\n", "    return np.greater(a, b).astype(np.float32)\n")]}),
+    ("from_gaussian-centre-from-unrounded-shape", "checks.c19", "sec_gaussian", {}, {_IM: [("(np.array(shape_px) - 1) / 2 +", "(shape_subpix - 1) / 2 +")]}),
     ("compose-applies-outer-first", "checks.c19", "sec_compose", {}, {_CL: [("fn = lambda x, scale: self(other(x, scale), scale)", "fn = lambda x, scale: other(self(x, scale), scale)")]}),
     ("with_scale-ignores-scale", "checks.c19", "sec_compose", {}, {_CL: [("            return self(img, scale)\n", "            return self(img, 1.0)\n")]}),
     ("radius-times-scale", "checks.c19", "sec_units", {}, {_MK: [("radius_px = abs(radius / scale)", "radius_px = abs(radius * scale)")]}),
